@@ -1314,12 +1314,16 @@ class Context:
             if k >= len(evs):
                 self.qcount += 1
                 return VBool(z3.Const('missing-event-state!%d' % self.qcount, T.B))
-            saved = I.st.heap
+            # the state AT the k-th event: the heap as it was then, and the trace of what had happened BEFORE it
+            saved, saved_trace = I.st.heap, I.st.trace
+            pos = next(i for i, e in enumerate(saved_trace) if e is evs[k])
             I.st.heap = dict(evs[k].heap)
+            I.st.trace = list(saved_trace[:pos])
             try:
-                return I.ev(node.args[2], frame)
+                body = node.args[2].body if isinstance(node.args[2], ast.Lambda) else node.args[2]
+                return I.ev(body, frame)
             finally:
-                I.st.heap = saved
+                I.st.heap, I.st.trace = saved, saved_trace
         if fn == 'cls':
             name = self.const_str(I, I.ev(node.args[0], frame))
             ci = self.find_class(name)
